@@ -124,6 +124,8 @@ pub struct Chain {
     pub swap_p2: u128,
     pub stores: BTreeMap<Id, Store>,
     pub effects: Vec<Effect>,
+    /// pre-order list of the messages handled in the last transaction (the failing one marked `!`)
+    pub trace: Vec<String>,
     pub fuel: u32,
 }
 
@@ -226,6 +228,7 @@ impl Chain {
             swap_p2: D,
             stores: BTreeMap::new(),
             effects: vec![],
+            trace: vec![],
             fuel: 0,
         }
     }
@@ -541,11 +544,32 @@ impl Chain {
             return Err("out of fuel".into());
         }
         self.fuel -= 1;
+        // (the sink stub accepts anything: its messages are traced without their variant)
+        let tok = if target == SINK { format!("X{}.*", target) } else { format!("X{}.{}", target, Self::variant_of(msg)) };
+        let mut moved: Result<(), String> = Ok(());
         for c in funds {
-            self.bank_move(sender, target, denom_id(&c.denom), c.amount.u128())?;
+            moved = self.bank_move(sender, target, denom_id(&c.denom), c.amount.u128());
+            if moved.is_err() {
+                break;
+            }
         }
-        self.effects.push(Effect::Wasm { sender, target, variant: Self::variant_of(msg) });
-        let resp = self.run_contract(target, sender, funds, msg, false)?;
+        let r = match moved {
+            Err(e) => Err(e),
+            Ok(()) => {
+                self.effects.push(Effect::Wasm { sender, target, variant: Self::variant_of(msg) });
+                self.run_contract(target, sender, funds, msg, false)
+            }
+        };
+        let resp = match r {
+            Err(e) => {
+                self.trace.push(format!("{}!", tok));
+                return Err(e);
+            }
+            Ok(resp) => {
+                self.trace.push(tok);
+                resp
+            }
+        };
         for sub in resp.messages {
             self.exec_cosmos(target, sub.msg)?;
         }
@@ -553,6 +577,28 @@ impl Chain {
     }
 
     fn exec_cosmos(&mut self, sender: Id, msg: CosmosMsg) -> Result<(), String> {
+        // trace token of a chain-level message (contract calls are traced in exec_wasm)
+        let tok: Option<String> = match &msg {
+            CosmosMsg::Bank(BankMsg::Send { to_address, amount }) if amount.len() == 1 => {
+                Some(format!("B{}>{}.{}.{}", sender, id_of(to_address), denom_id(&amount[0].denom), amount[0].amount.u128()))
+            }
+            CosmosMsg::Staking(StakingMsg::Delegate { validator, amount }) => Some(format!("D{}.{}", id_of(validator), amount.amount.u128())),
+            CosmosMsg::Staking(StakingMsg::Undelegate { validator, amount }) => Some(format!("U{}.{}", id_of(validator), amount.amount.u128())),
+            CosmosMsg::Staking(StakingMsg::Redelegate { src_validator, dst_validator, amount }) => {
+                Some(format!("R{}>{}.{}", id_of(src_validator), id_of(dst_validator), amount.amount.u128()))
+            }
+            CosmosMsg::Distribution(DistributionMsg::WithdrawDelegatorReward { validator }) => Some(format!("W{}", id_of(validator))),
+            CosmosMsg::Distribution(DistributionMsg::SetWithdrawAddress { address }) => Some(format!("A{}", id_of(address))),
+            _ => None,
+        };
+        let r = self.exec_cosmos_inner(sender, msg);
+        if let Some(t) = tok {
+            self.trace.push(if r.is_ok() { t } else { format!("{}!", t) });
+        }
+        r
+    }
+
+    fn exec_cosmos_inner(&mut self, sender: Id, msg: CosmosMsg) -> Result<(), String> {
         match msg {
             CosmosMsg::Bank(BankMsg::Send { to_address, amount }) => {
                 if amount.is_empty() {
@@ -676,13 +722,16 @@ impl Chain {
     pub fn tx(&mut self, sender: Id, target: Id, msg: &Binary, funds: &[Coin]) -> Result<(), String> {
         let snapshot = self.clone();
         self.effects.clear();
+        self.trace.clear();
         self.fuel = 400;
         match self.exec_wasm(sender, target, msg, funds) {
             Ok(()) => Ok(()),
             Err(e) => {
                 let eff = std::mem::take(&mut self.effects);
+                let tr = std::mem::take(&mut self.trace);
                 *self = snapshot;
                 self.effects = eff; // keep the attempted effects for diagnostics
+                self.trace = tr;
                 Err(e)
             }
         }
